@@ -427,6 +427,12 @@ def desc_strategy(tier="quick", layers=None):
   cmax = 5 if big else 4
   fmax = 5 if big else 4
 
+  def rare(draw, n):
+    """True about once in n+1 draws.  Hypothesis over-samples the end points
+    of an integer range (and shrinks towards 0), so the rare branch sits on an
+    interior value."""
+    return draw(st.integers(0, n)) == n // 2 + 1
+
   def qdraw(draw, pool):
     # None about 1/4 of the time, otherwise uniform over the pool
     if draw(st.integers(0, 3)) == 0:
@@ -525,7 +531,7 @@ def desc_strategy(tier="quick", layers=None):
         # reset_after with a bias is a known crash here (array_ops.unstack):
         # mostly drawn without bias, rarely with
         kw["reset_after"] = draw(st.booleans())
-        if kw["reset_after"] and kw["use_bias"] and draw(st.integers(0, 7)):
+        if kw["reset_after"] and kw["use_bias"] and not rare(draw, 7):
           kw["use_bias"] = False
       t = draw(st.integers(1, 4))
       cin = draw(st.integers(1, cmax))
@@ -542,7 +548,7 @@ def desc_strategy(tier="quick", layers=None):
       hw = [ps[i] + draw(st.integers(0, 4)) for i in range(2)]
       cin = draw(st.integers(1, 3))
       # the stock CPU AvgPool kernel rejects NCHW: rare, only to count it
-      cf = draw(st.integers(0, 11)) == 0
+      cf = rare(draw, 11)
       kw.update(pool_size=ps, strides=ss, padding=pad,
                 data_format="channels_first" if cf else "channels_last")
       case["in_shape"] = [b, cin] + hw if cf else [b] + hw + [cin]
@@ -564,7 +570,7 @@ def desc_strategy(tier="quick", layers=None):
         q[role] = qdraw(draw, BIAS_Q)
         # QLSTM(use_bias=False, bias_quantizer=...) is a known crash: rare
         if (lay == "QLSTM" and not kw["use_bias"] and q[role] is not None and
-            draw(st.integers(0, 5))):
+            not rare(draw, 5)):
           q[role] = None
       elif role == "state":
         q[role] = draw(st.sampled_from(STATE_Q)) if draw(st.booleans()) else None
@@ -572,8 +578,8 @@ def desc_strategy(tier="quick", layers=None):
         q[role] = qdraw(draw, AVG_Q)
       elif role == "recurrent" and lay == "QGRU":
         # recurrent_quantizer=None is a known defect of QGRU: keep it rare
-        q[role] = draw(st.sampled_from(KERNEL_Q[1:])) if draw(
-            st.integers(0, 9)) else None
+        q[role] = None if rare(draw, 9) else draw(
+            st.sampled_from(KERNEL_Q[1:]))
       else:
         q[role] = qdraw(draw, KERNEL_Q)
     if fam == "rnn":
